@@ -11,6 +11,7 @@ import Vuego.Driver.MergeOp
 import Vuego.Driver.FmtOp
 import Vuego.Driver.MdOp
 import Vuego.Driver.CallOp
+import Vuego.Driver.FrontMatterOp
 namespace Vuego.Driver
 open Lean
 
@@ -20,6 +21,7 @@ def handle (j : Json) : Json :=
   | "stackops" => stackOps j
   | "truthy" => truthyOp j
   | "callconv" => callConvOp j
+  | "extractfm" => extractFmOp j
   | "callarity" => callArityOp j
   | "callvariadic" => callVariadicOp j
   | "splitpath" => splitPathOp j
